@@ -21,7 +21,7 @@ def opx(kind):
 AFTER = r'class _after_op<Duration, Receiver>::type final : task_base \{'
 AT = r'class _at_op<Receiver>::type final : task_base \{'
 SPEC = dict(
-    properties=['C07', 'C04', 'C06'],
+    properties=['C07', 'C04', 'C06', 'C01'],
     ctx=ctx,
     extracts={
         'next_init': dict(file=H, kind='expr', sig=r'task_base\* next_\s*(=?[^;]*);', within=TB),
@@ -46,14 +46,14 @@ SPEC = dict(
         dict(name='enqueue_walk_step', harness='h_enqueue_loop0_body', enforce='enqueue__loop0_body', defines=['VF_VERIFY_ENQUEUE'], props=['C07']),
         dict(name='enqueue_bounded', harness='h_enqueue_bounded', mode='bounded', unwind=6, defines=['VF_VERIFY_ENQUEUE', 'VF_BOUNDED', 'NB=4'], props=['C07'], timeout=600),
         dict(name='enqueue_bounded_thorough', harness='h_enqueue_bounded', mode='bounded', unwind=10, defines=['VF_VERIFY_ENQUEUE', 'VF_BOUNDED', 'NB=8'], props=['C07'], timeout=3000, tier='thorough'),
-        dict(name='cancel_callback', harness='h_cancel_callback', enforce='cancel_callback_call', replace=['ctx_enqueue'], props=['C07']),
-        dict(name='run', harness='h_run', enforce='ctx_run', props=['C07', 'C06']),
-        dict(name='run_body', harness='h_run_body', enforce='run__loop0_body', props=['C07', 'C06']),
+        dict(name='cancel_callback', harness='h_cancel_callback', enforce='cancel_callback_call', replace=['ctx_enqueue'], props=['C07', 'C01']),
+        dict(name='run', harness='h_run', enforce='ctx_run', props=['C07', 'C06', 'C01']),
+        dict(name='run_body', harness='h_run_body', enforce='run__loop0_body', props=['C07', 'C06', 'C01']),
         dict(name='dtor', harness='h_dtor', enforce='ctx_dtor', props=['C06']),
-        dict(name='after_start', harness='h_after_start', enforce='after_start', replace=['ctx_enqueue', 'cancel_callback_call'], props=['C07', 'C04']),
-        dict(name='at_start', harness='h_at_start', enforce='at_start', replace=['ctx_enqueue', 'cancel_callback_call'], props=['C07', 'C04']),
-        dict(name='after_execute_impl', harness='h_after_execute_impl', enforce='after_execute_impl', props=['C07', 'C04', 'C06']),
-        dict(name='at_execute_impl', harness='h_at_execute_impl', enforce='at_execute_impl', props=['C07', 'C04', 'C06']),
+        dict(name='after_start', harness='h_after_start', enforce='after_start', replace=['ctx_enqueue', 'cancel_callback_call'], props=['C07', 'C04', 'C01']),
+        dict(name='at_start', harness='h_at_start', enforce='at_start', replace=['ctx_enqueue', 'cancel_callback_call'], props=['C07', 'C04', 'C01']),
+        dict(name='after_execute_impl', harness='h_after_execute_impl', enforce='after_execute_impl', props=['C07', 'C04', 'C06', 'C01']),
+        dict(name='at_execute_impl', harness='h_at_execute_impl', enforce='at_execute_impl', props=['C07', 'C04', 'C06', 'C01']),
         dict(name='lemma_timed_ctx', harness='lemma_timed_ctx', mode='lemma'),
     ],
     assumptions=[
